@@ -294,7 +294,7 @@ fn main() {
             cr
         }));
         // ---- random larger workloads
-        let n = ctx.tier.pick(4000usize, 150_000);
+        let n = ctx.tier.pick(4000usize, 1_500_000);
         gens.push(Gen::new("random", n, move |ctx, i| {
             let mut rng = Rng::keyed(ctx.seed, "C13r", 0, i as u64);
             let nq = rng.range(1, 6) as usize;
